@@ -162,3 +162,40 @@ package fasthttp
 //@     effect released = released + 1
 //@   end
 //@   ensures[released-at-most-once] released <= 1 && (released == 1) == release
+
+// C24, range readers. UpdateByteRange positions the file at startPos (the length limit lives in an io.LimitedReader,
+// a library struct whose fields are not modelled, and is not decided here).
+//@ func bigFileReader.UpdateByteRange results err
+//@   property C24
+//@   mode skeleton
+//@   ghost sought int = -1
+//@   ghost whenceOK bool = false
+//@   on call io.Seeker.Seek(_, o, wh) -> n, e:
+//@     nohavoc
+//@     effect sought = o; whenceOK = (wh == io.SeekStart)
+//@   end
+//@   ensures[positioned-at-start] err == nil ==> sought == startPos && whenceOK
+
+//@ func fsSmallFileReader.UpdateByteRange results err
+//@   property C24
+//@   mode skeleton
+//@   nooverflow
+//@   ensures[window-is-the-range] err == nil && r.startPos == startPos && r.endPos == endPos + 1
+
+// fsSmallFileReader.Read: reads only inside [startPos, endPos) and advances startPos by what was read; it never
+// hands out more than the rest of the range.
+//@ func fsSmallFileReader.Read results n err
+//@   property C24 C08
+//@   mode skeleton
+//@   safety C08
+//@   nooverflow
+//@   requires[window] 0 <= r.startPos && (r.ff.f == nil ==> r.endPos <= len(r.ff.dirIndex))
+//@   ghost asked int = -1
+//@   ghost at int = -1
+//@   on call io.ReaderAt.ReadAt(_, b, o) -> k, e:
+//@     nohavoc
+//@     requires[inside-range] len(b) <= r.endPos - r.startPos && o == r.startPos
+//@     ensures 0 <= k && k <= len(b)
+//@   end
+//@   ensures[within-range] r.startPos <= r.endPos || old(r.startPos) > old(r.endPos)
+//@   ensures[advanced-by-n] r.startPos == old(r.startPos) + n && 0 <= n
